@@ -395,6 +395,25 @@ fn process_transactions(
         }
     }
 
+    // Withholding rows that no dividend row of the same day and symbol picked up must not
+    // vanish: surface each as a comment and a warning, in a stable order.
+    let mut orphan_taxes: Vec<((NaiveDate, String), Decimal)> =
+        dividend_taxes.into_iter().collect();
+    orphan_taxes.sort_by(|a, b| a.0.cmp(&b.0));
+    for ((date, symbol), amount) in orphan_taxes {
+        let comment = format!(
+            "SKIPPED: NRA withholding of {} USD for {} on {} has no dividend on that day",
+            amount,
+            symbol,
+            date.format("%Y-%m-%d")
+        );
+        warnings.push(format!(
+            "{comment} - not included; add it to the matching DIVIDEND line manually"
+        ));
+        cgt_transactions.push(CgtTransaction::Comment { comment });
+        skipped_count += 1;
+    }
+
     // Apply deferred cancellations: remove original sells that were cancelled.
     // This must happen after all transactions are processed because Cancel Sell
     // entries can appear before their corresponding original Sell in the JSON.
